@@ -88,10 +88,14 @@ def expEdge (d : Nat) (e : NEdge) : REdge := ⟨e.id, e.src, e.tgt, e.orient, e.
 def EdgeOK (sep : Char) (e : NEdge) : Prop :=
   IdOK sep e.id ∧ IdOK sep e.src ∧ IdOK sep e.tgt ∧ (e.orient = 0 ∨ e.orient = 1 ∨ e.orient = -1) ∧ 2 ≤ e.geom.length
 
+theorem wktCoords_toWKT_e (d : Nat) (pts : List Pt) (hne : pts ≠ []) :
+    wktCoords (toWKT d pts) = .ok (pts.map (vertexStr 'e' d)) := wktCoords_toWKT 'e' (by decide) d pts hne
+
 theorem toWKT_avoids (d : Nat) (pts : List Pt) (x : Char) (hx : numChar x = false)
-    (h1 : x ∉ "LINESTRING(".toList) (h2 : x ≠ ' ') (h3 : x ≠ ',') (h4 : x ≠ ')') : x ∉ toWKT d pts := by
+    (h1 : x ∉ "LINESTRING(".toList) (h2 : x ≠ ' ') (h3 : x ≠ ',') (h4 : x ≠ ')') (h5 : x ≠ 'e') (h6 : x ≠ '+') :
+    x ∉ toWKT d pts := by
   intro hm
-  unfold toWKT at hm
+  unfold toWKT toWKTE at hm
   simp only [List.mem_append, List.mem_singleton] at hm
   rcases hm with (hm | hm) | hm
   · exact h1 hm
@@ -99,7 +103,7 @@ theorem toWKT_avoids (d : Nat) (pts : List Pt) (x : Char) (hx : numChar x = fals
     · exact h3 h
     · simp only [List.mem_map] at hv
       obtain ⟨p, _, rfl⟩ := hv
-      exact vertexStr_avoids d p x hx h2 hxv
+      exact vertexStr_avoids 'e' d p x hx h2 h5 h6 hxv
   · exact h4 hm
 
 theorem netReadRow_record (sep : Char) (hdr : Nat) (d : Nat) (e : NEdge) (he : EdgeOK sep e) :
@@ -107,14 +111,14 @@ theorem netReadRow_record (sep : Char) (hdr : Nat) (d : Nat) (e : NEdge) (he : E
   obtain ⟨_, _, _, ho, hg⟩ := he
   have hne : e.geom ≠ [] := by intro h; rw [h] at hg; simp at hg
   unfold netReadRow
-  have hm : List.mapM (parseVertex ∘ vertexStr d) e.geom = .ok (e.geom.map (expVertex d)) :=
-    mapM_ok _ _ _ (fun p _ => parseVertex_vertexStr d p)
+  have hm : List.mapM (parseVertex ∘ vertexStr 'e' d) e.geom = .ok (e.geom.map (expVertex d)) :=
+    mapM_ok _ _ _ (fun p _ => parseVertex_vertexStr 'e' (by decide) d p)
   have hlen : ¬ (e.geom.map (expVertex d)).length < 2 := by simp; omega
   have hstrip : strip (intStr e.orient) = intStr e.orient := strip_numStr _ (intStr_ne_nil _) (intStr_numChar _)
   have h3 : Int.toNat 3 = 3 := rfl
   have h31 : (3 : Int) ≠ -1 := by decide
   simp only [nth, List.getElem?_cons_zero, List.getElem?_cons_succ, bind, Except.bind, pure, Except.pure,
-    wktCoords_toWKT d e.geom hne, List.mapM_map, hm, hlen, ↓reduceIte, h3, h31, hstrip, parseInt_intStr, ho]
+    wktCoords_toWKT_e d e.geom hne, List.mapM_map, hm, hlen, ↓reduceIte, h3, h31, hstrip, parseInt_intStr, ho]
   rfl
 
 /-! ### the file -/
@@ -135,8 +139,8 @@ theorem intStr_idOK (sep : Char) (hs : SepOK sep) (i : Int) : IdOK sep (intStr i
 
 theorem edgeBody_clean (sep : Char) (hs : SepOK sep) (d : Nat) (e : NEdge) (he : EdgeOK sep e) :
     ∀ c ∈ edgeBody sep d e, c ≠ '\n' ∧ c ≠ '\r' := by
-  have hw1 := toWKT_avoids d e.geom '\n' (by decide) (by decide) (by decide) (by decide) (by decide)
-  have hw2 := toWKT_avoids d e.geom '\r' (by decide) (by decide) (by decide) (by decide) (by decide)
+  have hw1 := toWKT_avoids d e.geom '\n' (by decide) (by decide) (by decide) (by decide) (by decide) (by decide) (by decide)
+  have hw2 := toWKT_avoids d e.geom '\r' (by decide) (by decide) (by decide) (by decide) (by decide) (by decide) (by decide)
   have ho := intStr_idOK sep hs e.orient
   obtain ⟨h1, h2, h3, _, _⟩ := he
   intro c hc
@@ -160,7 +164,7 @@ theorem csvRecord_edgeBody (sep : Char) (hs : SepOK sep) (d : Nat) (e : NEdge) (
   rw [hf]
   unfold edgeBody
   exact csvRecord_row sep _ _ _ _ _ hs.2.1 he.1 he.2.1 he.2.2.1 (intStr_idOK sep hs _)
-    (toWKT_avoids d e.geom '"' (by decide) (by decide) (by decide) (by decide) (by decide))
+    (toWKT_avoids d e.geom '"' (by decide) (by decide) (by decide) (by decide) (by decide) (by decide) (by decide))
 
 def hdrBody (sep : Char) : Str :=
   "link_id".toList ++ [sep] ++ "source".toList ++ [sep] ++ "target".toList ++ [sep] ++ "direction".toList ++ [sep] ++ "wkt".toList
